@@ -101,10 +101,27 @@ class Gen:
             g = dict(reversed(list(g.items())))
         return g
 
-    def flow_ref(self, defined_only=False):
+    def flow_ref(self, defined_only=False, site="action"):
+        """A reference {name, uuid} to a flow.  A reference carries the name the flow had when the
+        referring object was saved: after a flow has been renamed, RapidPro exports references to
+        ONE uuid under DIFFERENT names (`renamed` documents).  Every name still belongs to one
+        uuid only (the schema's name -> uuid dictionary stays functional).  A trigger may only
+        use a name the document already knows: the flow's own name, or an older name that a
+        flow / campaign of this document has used."""
         pool = self.flow_ids if (defined_only or self.r.random() < 0.6 and self.flow_ids) else self.flow_ids + self.extern_flows
         name, uuid = self.r.choice(pool)
         self.tick("flowref.defined" if (name, uuid) in self.flow_ids else "flowref.external")
+        if self.renamed and self.r.random() < 0.4:
+            used = self.used_aliases.setdefault(uuid, [])
+            if site == "trigger":
+                older = self.r.choice(used) if used else None
+            else:
+                older = self.r.choice(alias_names(name))
+                if older not in used:
+                    used.append(older)
+            if older is not None:
+                name = older
+                self.tick("flowref.older_name." + site)
         return {"name": name, "uuid": uuid} if self.r.random() < 0.5 else {"uuid": uuid, "name": name}
 
     # -- actions
@@ -160,7 +177,7 @@ class Gen:
             a["value"] = self.s()
             self.opt(a, "category", r.choice(["Male", "Cat 2"]), ["", None])
         elif typ == "enter_flow":
-            a["flow"] = self.flow_ref()
+            a["flow"] = self.flow_ref(site="action")
         if typ not in PASS_THROUGH and r.random() < 0.2:
             a = dict(reversed(list(a.items())))
         return a
@@ -356,7 +373,7 @@ class Gen:
             "start_mode": r.choice(["I", "S", "P"]),
         }
         if kind == "F":
-            ev["flow"] = self.flow_ref()
+            ev["flow"] = self.flow_ref(site="event")
         else:
             ev["message"] = r.choice([{"eng": "SPAM", "fra": "SPAMME"}, {"eng": self.s()}])
             ev["base_language"] = r.choice(["eng", "fra"])
@@ -377,7 +394,7 @@ class Gen:
         r = self.r
         t = r.choice(TRIGGER_TYPES)
         legacy = r.random() < 0.3 if legacy is None else legacy
-        tr = {"trigger_type": t, "flow": self.flow_ref(defined_only=True)}
+        tr = {"trigger_type": t, "flow": self.flow_ref(defined_only=True, site="trigger")}
         kws = [r.choice(["hi", "join now", "é"]) for _ in range(r.randint(1, 2))] if t == "K" else []
         if legacy:
             tr["keyword"] = kws[0] if kws else None
@@ -409,6 +426,14 @@ class Gen:
         names = ["test group", "Customers", "g é", "Registered Users"]
         r.shuffle(names)
         self.groups = [{"name": n, "uuid": self.uuid()} for n in names[: r.choice([0, 1, 2, 4]) if not top_group_attrs else r.randint(1, 3)]]
+        # one object under several names: a renamed group is listed (and referred to) under its
+        # older name too, with the SAME uuid; references to a renamed flow keep the older name
+        self.renamed = r.random() < 0.3
+        self.used_aliases = {}
+        if self.renamed and self.groups and not top_group_attrs:
+            for g in r.sample(self.groups, r.randint(1, min(2, len(self.groups)))):
+                self.groups.insert(r.randint(0, len(self.groups)), {"name": r.choice(alias_names(g["name"])), "uuid": g["uuid"]})
+                self.tick("group.older_name_same_uuid")
         fnames = ["flow A", "flow_b", "ﬂöw c"]
         r.shuffle(fnames)
         nf = max(1 if force_flow else 0, min(self.size, r.choice([0, 1, 1, 2, 3])))
@@ -435,6 +460,12 @@ class Gen:
         if r.random() < 0.3:
             d = dict(reversed(list(d.items())))
         return d
+
+
+def alias_names(name):
+    """older names of a renamed object: distinct from every current name of the generator's
+    pools and from the aliases of every other object (prefix / suffix / case / whitespace)"""
+    return [name + " v1", "Old " + name, "Copy of " + name, name.upper(), name + " ", name + "."]
 
 
 def generate(seed, avoid=frozenset("abcd"), **kw):
